@@ -111,3 +111,99 @@ func HC01Scanner() {
 	vNote("verdict", r)
 	vReach("end")
 }
+
+func c01Bin(b byte) bool {
+	return b <= 0x08 || b == 0x0B || (0x0E <= b && b <= 0x1A) || (0x1C <= b && b <= 0x1F)
+}
+
+func c01HasBOM(x []byte) bool {
+	boms := [][]byte{{0xEF, 0xBB, 0xBF}, {0x00, 0x00, 0xFE, 0xFF}, {0xFF, 0xFE, 0x00, 0x00}, {0xFE, 0xFF}, {0xFF, 0xFE}}
+	for _, b := range boms {
+		if len(x) >= len(b) {
+			ok := true
+			for i := range b {
+				if x[i] != b[i] {
+					ok = false
+				}
+			}
+			if ok {
+				return true
+			}
+		}
+	}
+	return false
+}
+
+// HC01Data: the whole of Detect and DetectReader (real tree walk, real detectors, real charset
+// sniffers) on realistic headers: the first bytes of every input of the repository's own test table
+// and testdata files (regenerated from /repo on every run), cut at several lengths, with one byte
+// replaced by a symbolic byte and a symbolic byte appended, at limits 0, len (header counts as cut)
+// and 3072. Obligations: no run-time check fails, the result is non-nil, the caller's buffer is not
+// written, the reader path reports the same chain, and - end to end - text/plain is in the chain
+// only for a BOM or a header without binary-data bytes, and such headers never end as the bare root.
+func HC01Data() {
+	f := c01TestData[vChoice("file", len(c01TestData))]
+	cuts := []int{len(f)}
+	for _, c := range []int{4, 12, 33} {
+		if c < len(f) {
+			cuts = append(cuts, c)
+		}
+	}
+	ci := vChoice("cut", 4)
+	vAssume(ci < len(cuts))
+	cut := cuts[ci]
+	hdr := make([]byte, cut, cut+1)
+	copy(hdr, f[:cut])
+	poke := vChoice("poke", 4)
+	if vChoice("dataTier", 2) == 0 {
+		// quick tier: no substitution, or the last byte of the cut
+		vAssume(poke == 0 || poke == 3)
+	}
+	switch poke {
+	case 1:
+		hdr[0] = vByte("p")
+	case 2:
+		if cut > 5 {
+			hdr[5] = vByte("p")
+		} else {
+			vAssume(false)
+		}
+	case 3:
+		hdr[cut-1] = vByte("p")
+	}
+	if vChoice("tail", 2) == 1 {
+		hdr = append(hdr, vByte("t"))
+	}
+	lims := []uint32{0, uint32(len(hdr)), 3072}
+	l := lims[vChoice("limit", len(lims))]
+	old := readLimit
+	SetLimit(l)
+	vWatch(hdr)
+	r := Detect(hdr)
+	vAssert(r != nil, "data-result-non-nil")
+	vAssert(vWritten() == 0, "data-caller-buffer-not-written")
+	r2, err := DetectReader(&c06GateReader{data: hdr})
+	SetLimit(old)
+	vAssert(err == nil && r2 != nil, "data-reader-ok")
+	vAssert(c06Chain(r) == c06Chain(r2), "data-reader-agrees-with-bytes")
+	inChain := false
+	for p := r; p != nil; p = p.Parent() {
+		if l1BareType(p.String()) == "text/plain" {
+			inChain = true
+		}
+	}
+	bin := false
+	for _, b := range hdr {
+		if c01Bin(b) {
+			bin = true
+		}
+	}
+	bom := c01HasBOM(hdr)
+	if inChain {
+		vAssert(bom || !bin, "e2e-text-implies-bom-or-no-binary-byte")
+	}
+	if bom || !bin {
+		vAssert(r.Parent() != nil, "e2e-no-binary-byte-implies-classified")
+	}
+	vReach("end")
+}
